@@ -12,7 +12,7 @@ def declare(S: Spec):
     S.measure("cpuC", "Container", "c", "c.assignment.cpu")
     S.measure("ramC", "Container", "c", "c.assignment.ram")
 
-    S.fn(f"{MR}:ResourcePool.verify_valid_assignment",
+    S.fn(f"{MR}:ResourcePool.verify_valid_assignment", owners=["C03"],
          params={"assignments": List(Ref("Assignment"))},
          requires=["assignments is not None"],
          ensures=[("cpu-fits", "Sum(assignments, 'cpuA') <= self.avail_cpu_pool"),
@@ -25,7 +25,7 @@ def declare(S: Spec):
                         inv=["cpu_to_be_alloc == Sum(take(assignments, k), 'cpuA')",
                              "ram_to_be_alloc == Sum(take(assignments, k), 'ramA')", "k <= len(assignments)"])})
 
-    S.fn(f"{MR}:ResourcePool.get_container_by_id",
+    S.fn(f"{MR}:ResourcePool.get_container_by_id", owners=["C10"],
          params={"container_id": STR}, returns=Ref("Container"),
          requires=[],
          ensures=[("found", "implies(result is not None, result in self.active_containers and result.container_id == container_id)"),
@@ -34,7 +34,7 @@ def declare(S: Spec):
          loops={0: dict(idx="k", header="for container in self.active_containers",
                         inv=["all(self.active_containers[j].container_id != container_id for j in range(0, k))"])})
 
-    S.fn(f"{MR}:ResourcePool.verify_valid_suspend",
+    S.fn(f"{MR}:ResourcePool.verify_valid_suspend", owners=["C10"],
          params={"suspensions": List(Ref("Suspend"))},
          requires=["suspensions is not None"],
          ensures=[("all-suspendable", "all(any(c.container_id == s.container_id and c._can_suspend for c in self.active_containers)"
@@ -45,7 +45,7 @@ def declare(S: Spec):
                         inv=["all(any(c.container_id == suspensions[j].container_id and c._can_suspend for c in self.active_containers)"
                              " for j in range(0, k))"])})
 
-    S.fn(f"{MR}:ResourcePool._reconcile_consumed_ram",
+    S.fn(f"{MR}:ResourcePool._reconcile_consumed_ram", owners=["C04"],
          requires=[],
          ensures=[("recount", "self.consumed_ram_gb == Sum(self.active_containers, 'Container._current_memory')")],
          modifies=["self.consumed_ram_gb"])
@@ -74,15 +74,15 @@ def declare2(S: Spec):
                 "(values(o.pipeline._runtime_status.state_counts) for c in self.active_containers for o in c.assignment.ops)",
                 "(c._current_memory for c in self.active_containers)", "(c._completed for c in self.active_containers)",
                 "(c.error for c in self.active_containers)", "self.consumed_ram_gb"]
-    S.fn(f"{MR}:ResourcePool._run_out_of_memory_killer",
+    S.fn(f"{MR}:ResourcePool._run_out_of_memory_killer", owners=["C11", "C04"],
          requires=["nodup(self.active_containers)", "GI1()",
                    "all(ActiveOK(self, c) for c in self.active_containers)",
                    "OpsDisjoint(seq(self.active_containers))",
                    "self.consumed_ram_gb == Sum(self.active_containers, 'Container._current_memory')"],
-         ensures=[("individual-limits", "all(c._current_memory <= c.assignment.ram for c in self.active_containers)"),
-                  ("fits-or-nothing-left", "self.consumed_ram_gb <= self.max_ram_pool or all(not Candidate(c) for c in self.active_containers)"),
-                  ("usage-truthful", "self.consumed_ram_gb == Sum(self.active_containers, 'Container._current_memory')"),
-                  ("kill-justified", "all(implies(c._completed and not old(c._completed),"
+         ensures=[("individual-limits", "C04| all(c._current_memory <= c.assignment.ram for c in self.active_containers)"),
+                  ("fits-or-nothing-left", "C04,C11| self.consumed_ram_gb <= self.max_ram_pool or all(not Candidate(c) for c in self.active_containers)"),
+                  ("usage-truthful", "C04| self.consumed_ram_gb == Sum(self.active_containers, 'Container._current_memory')"),
+                  ("kill-justified", "C04| all(implies(c._completed and not old(c._completed),"
                                      " old(c._current_memory) > c.assignment.ram or old(self.consumed_ram_gb) > self.max_ram_pool)"
                                      " for c in self.active_containers)"),
                   ("ended-stay-ended", "all(implies(old(c._completed), c._completed and c.error == old(c.error)) for c in self.active_containers)"),
@@ -90,9 +90,9 @@ def declare2(S: Spec):
                   ("survivors-untouched", "all(implies(not c._completed, c._current_memory == old(c._current_memory) and c._current_op_idx == old(c._current_op_idx))"
                                           " for c in self.active_containers)"),
                   ("active-ok", "all(ActiveOK(self, c) for c in self.active_containers)"), ("I1", "GI1()"),
-                  ("highest-score-first", "all(all(implies(c._completed and not old(c._completed) and old(c._current_memory) <= c.assignment.ram and Candidate(s),"
+                  ("highest-score-first", "C11| all(all(implies(c._completed and not old(c._completed) and old(c._current_memory) <= c.assignment.ram and Candidate(s),"
                                           " old(Score(c)) >= Score(s)) for s in self.active_containers) for c in self.active_containers)"),
-                  ("never-chosen", "all(implies(old(c._current_memory) <= 0 or old(c._completed), c._completed == old(c._completed)) for c in self.active_containers)"),
+                  ("never-chosen", "C11| all(implies(old(c._current_memory) <= 0 or old(c._completed), c._completed == old(c._completed)) for c in self.active_containers)"),
                   ("list-kept", "seq(self.active_containers) == old(seq(self.active_containers))"),
                   ("only-own-operators", "all(state(o) == old(state(o)) for o in every('Operator') if not OwnOp(self, o))")],
          modifies=KILL_MOD,
@@ -172,21 +172,21 @@ def declare3(S: Spec):
     SUS = "all(SuspOK(self, c) for c in self.suspending_containers)"
     USAGE = "self.consumed_ram_gb == Sum(self.active_containers, 'Container._current_memory')"
 
-    S.fn(f"{MR}:ResourcePool.run_one_tick",
+    S.fn(f"{MR}:ResourcePool.run_one_tick", owners=["C03", "C04", "C09", "C10"],
          params={"suspensions": List(Ref("Suspend")), "assignments": List(Ref("Assignment"))},
          returns=List(Ref("ExecutionResult")),
          requires=["suspensions is not None and assignments is not None", "PoolInv(self)", "GI1()",
                    "IdsOK(seq(self.active_containers))", "BatchOK(self, seq(assignments))"],
-         ensures=[("conserved", "Conserved(self)"),
-                  ("never-oversold", "self.avail_cpu_pool >= 0 and implies(not self.allow_memory_overcommit, self.avail_ram_pool >= 0)"),
+         ensures=[("conserved", "C03| Conserved(self)"),
+                  ("never-oversold", "C03| self.avail_cpu_pool >= 0 and implies(not self.allow_memory_overcommit, self.avail_ram_pool >= 0)"),
                   ("lists-ok", "ListsOK(self)"), ("live-disjoint", "LiveDisjoint(self)"),
                   ("active-ok", "all(ActiveOK(self, c) and not c._completed and c._current_memory <= c.assignment.ram for c in self.active_containers)"),
                   ("suspending-ok", "all(SuspOK(self, c) for c in self.suspending_containers)"),
                   ("I1", "GI1()"), ("ids-ok", "IdsOK(seq(self.active_containers))"),
                   ("pool-invariant", "PoolInv(self)"),
-                  ("memory-limits", "all(c._current_memory <= c.assignment.ram for c in self.active_containers)"),
-                  ("usage-truthful", USAGE),
-                  ("fits-or-idle", "self.consumed_ram_gb <= self.max_ram_pool or all(c._current_memory <= 0 for c in self.active_containers)")],
+                  ("memory-limits", "C04| all(c._current_memory <= c.assignment.ram for c in self.active_containers)"),
+                  ("usage-truthful", "C04| " + USAGE),
+                  ("fits-or-idle", "C04| self.consumed_ram_gb <= self.max_ram_pool or all(c._current_memory <= 0 for c in self.active_containers)")],
          raises={"AssertionError": ["GI1()"], "AttributeError": ["GI1()"]},
          modifies=["star('dv:Operator:OperatorState')", "star('dv:OperatorState:int')",
                    "star('fld:Container._current_memory')", "star('fld:Container._completed')", "star('fld:Container.error')",
